@@ -85,6 +85,16 @@ def run(ctx):
         if not any(e["pub"].get(fld) for e in gridok if e["f"][member] == "small") or \
            not any(not e["pub"].get(fld) for e in gridok if e["f"][member] == "absent"):
             raise vlib.Machinery("C31 vacuity: grid hellos do not show member %s both present and absent in the parsed view" % member)
+    for rv in ("absent", "small", "empty"):
+        hit = [e for e in gridok if e["f"]["suites"] in ("scsv", "both") and e["f"]["reneg"] == rv]
+        if not hit or not all(255 in e["pub"]["CipherSuites"] and e["pub"]["SecureRenegotiationSupported"] for e in hit):
+            raise vlib.Machinery("C31 vacuity: no parsed grid hello with TLS_EMPTY_RENEGOTIATION_INFO_SCSV and renegotiation_info %s" % rv)
+    for sv in ("fallback", "grease", "dup"):
+        if not any(e["f"]["suites"] == sv for e in gridok):
+            raise vlib.Machinery("C31 vacuity: no grid hello with cipher_suites shape %s" % sv)
+    for m in ("groups", "sigs", "versions", "shares"):
+        if not any(e["f"][m] == "special" for e in gridok):
+            raise vlib.Machinery("C31 vacuity: no grid hello with special code points in %s" % m)
     if not any(e["f"]["groups"] == "small" and e["f"]["points"] == "absent" for e in gridok):
         raise vlib.Machinery("C31 vacuity: no grid hello with supported_groups but without ec_point_formats")
     if len(chs) < len(ids) or not any(e["pub"].get("KeyShares") for e in chs) or not any(e["pub"].get("AlpnProtocols") for e in chs):
